@@ -158,3 +158,53 @@ Print Assumptions C18_source_reset_refines_model.
 Print Assumptions C18_source_get_refines_model.
 Print Assumptions C18_source_peek_refines_model.
 Print Assumptions C18_source_translation_complete.
+
+(* ---- construction and printing, from the source: NewPrioritizedRoundRobinRemote, ParsePrioritizedRoundRobinRemote and
+   prioritizedRoundRobinRemote.String translated statement by statement and run by the GoLite interpreter compute
+   Remote.new_groups / parse_remote / to_string on EVERY input, and the object built is the model's freshly reset remote.
+   strings.ToLower / TrimSpace / Split / Join are interpreted as Remote.lower_b / trim / split / join (ASCII zone, one-byte
+   separators): that mapping is trusted, and compared against the real package by the differential families of C18. ---- *)
+From FMP Require Import Model.GenTypes Proofs.GoLiteCtorProofs.
+
+Section SourceConstruction.
+  Variable permI : nat -> nat -> list nat.
+  Hypothesis permI_ok : forall n k, Permutation (permI n k) (seq 0 k).
+
+  Theorem C18_source_string_refines_model : forall fuel r, (1 <= fuel)%nat ->
+      run_fun permI fuel golite_funcs name_string (repr r) = RReturn (VStr (Remote.to_string (Remote.addrs r))) (repr r).
+  Proof. exact (golite_string_refines permI). Qed.
+
+  Theorem C18_source_new_refines_model : forall fuel (gs : list (list bytes)) d, (3 <= fuel)%nat ->
+      run_fun_args permI fuel golite_funcs name_new [enc_groups gs] (mkState [] [] d 0 0 [] [] []) =
+      RReturn (fst (new_result permI (Remote.new_groups gs) d)) (snd (new_result permI (Remote.new_groups gs) d)).
+  Proof. exact (golite_new_refines permI permI_ok). Qed.
+
+  Theorem C18_source_parse_refines_model : forall fuel (s : bytes) d, (3 <= fuel)%nat ->
+      run_fun_args permI fuel golite_funcs name_parse [VStr s] (mkState [] [] d 0 0 [] [] []) =
+      RReturn (fst (new_result permI (Remote.parse_remote s) d)) (snd (new_result permI (Remote.parse_remote s) d)).
+  Proof. exact (golite_parse_refines permI permI_ok). Qed.
+
+  (* new_result, spelled out: err_no_address = VErr "addressGroups has no address",
+     new_object r = VRec [("addresses", enc_groups (addrs r)); ("toIterate", enc_groups (iter r))] *)
+  Theorem C18_source_new_result : forall o d,
+      new_result permI o d =
+      match o with
+      | None => (VTuple [VNil; err_no_address], mkState [] [] d 0 0 [] [] [])
+      | Some c => let r := Remote.reset (GoLiteProofs.perm permI) (Remote.mkRemote c [] d) in
+                  (VTuple [new_object r; VNil], repr r)
+      end.
+  Proof. reflexivity. Qed.
+End SourceConstruction.
+
+Theorem C18_source_construction_complete :
+  forallb (fun nm => match lookup nm golite_funcs with
+                     | Some g => forallb stmt_ok (gf_body g)
+                     | None => false
+                     end) ctor_names = true.
+Proof. exact golite_ctor_no_unsupported. Qed.
+
+Print Assumptions C18_source_string_refines_model.
+Print Assumptions C18_source_new_refines_model.
+Print Assumptions C18_source_parse_refines_model.
+Print Assumptions C18_source_new_result.
+Print Assumptions C18_source_construction_complete.
